@@ -660,3 +660,23 @@ register(c_set_prototype_of, id="C08.Object.setPrototypeOf", prop="C08",
          target=closure("microjs.context", "Context._create_object_constructor", "set_prototype_of"),
          native=_native_set_prototype_of, heap_inputs=True,
          invariants={("microjs.context:Context._create_object_constructor.<set_prototype_of>", "isinstance(ancestor, JSObject)"): inv_set_prototype_of})
+
+
+# ---- must-fail canaries (soundness guards of the machinery: a deliberately false contract has to be refuted with a
+#      counter-model that replays on the real code, on every run) -------------------------------------------------------
+def canary_has_own_ignores_accessors(self: Obj("JSObject"), key: Str):
+    r = outcome(REAL, self, key)
+    check("canary", r[0] == "ret" and r[1] == (key in self._properties))        # false: accessors are own properties too
+
+
+def canary_set_prototype_never_refuses(obj: Obj("JSObject"), proto: Obj("JSObject")):
+    r = outcome(REAL, obj, proto)
+    check("canary", r[0] == "ret")        # false: a cycle is refused with TypeError
+
+
+register(canary_has_own_ignores_accessors, id="C08.canary.has_own", prop="C08", target=method("microjs.values", "JSObject.has_own"),
+         native=_native_method("JSObject", "has_own"), heap_inputs=True, canary=True)
+register(canary_set_prototype_never_refuses, id="C08.canary.setPrototypeOf", prop="C08",
+         target=closure("microjs.context", "Context._create_object_constructor", "set_prototype_of"),
+         native=_native_set_prototype_of, heap_inputs=True, canary=True,
+         invariants={("microjs.context:Context._create_object_constructor.<set_prototype_of>", "isinstance(ancestor, JSObject)"): inv_set_prototype_of})
